@@ -150,12 +150,11 @@ Print Assumptions C08_selects_preserved_refuted.
 
 (* The generic form behind the three theorems above, for ANY field-spec list (merged custom fields
    included) and two objects going through the same keys: stated with the table-level premises.
-   [uniform_create] (all matching specs ending at the path carry the same create flag) is not needed by
-   the proof; it is the domain on which the model is tied to the code (see Res/LabelsGen.v). *)
+   (The former hypotheses [uniform_create] - all matching specs ending at the path carry the same create
+   flag, the domain on which the model was tied to the code - are gone with the repair R-setentry-null-scalar.) *)
 Theorem C08_selects_preserved_generic :
   forall (nonstr : string -> bool) (sp tp : list string) (fss : list fieldspec) (kvs : pairs) (s w s' w' : node),
     rows_okP sp fss s -> rows_okP tp fss w ->
-    uniform_create sp fss s = true -> uniform_create tp fss w = true ->
     is_map w = true -> no_seq_along tp w = true ->
     (has_exact sp fss s = true -> has_create tp fss w = true) ->
     (has_exact sp fss s = false ->
@@ -190,7 +189,7 @@ Print Assumptions C08_exact_locations_frame.
    directive arrive, in sorted key order, existing keys overwritten in place. *)
 Theorem C08_exact_locations_hit :
   forall (nonstr : string -> bool) (L : pairs) (fss : list fieldspec) (x x' : node) (qs : list string),
-    rows_okb qs fss x = true -> uniform_create qs fss x = true ->
+    rows_okb qs fss x = true ->
     is_map x = true -> no_seq_along qs x = true ->
     has_create qs fss x = true ->
     label_filter nonstr L fss x = Ok x' ->
